@@ -1,17 +1,19 @@
 """Per-property definitions: theorems pinned, case generators, projections, oracles."""
-import random, re
+import itertools, random, re
 from . import gen
 from .core import hx
+from . import sexp as SX
 
 PROPS = {}
 
 
 class Prop:
     id = None
-    title = ""
     theorems = []          # names in Properties/<id>.v
     release = False        # also run the release build of the harness
+    single_process = False # run all cases in one process, in order
     rule = ""
+    assumes = []
 
     def cases(self, tier, rng):
         """returns list of (case_line, tag) — tag feeds the distribution in the evidence"""
@@ -25,10 +27,14 @@ class Prop:
         return True
 
     def oracle(self, case, impl_line, model_line):
-        """Called on a disagreement. Return a string describing how the implementation's answer
-        violates the property on this very input, or None if it cannot be shown to (then the
-        verdict is 'no-failing-input-found')."""
-        return "implementation and proved model disagree on the projection the property determines"
+        """Called on a disagreement. Return a string saying how the implementation's answer
+        violates the property on this very input, or None if that cannot be shown (the verdict is
+        then 'no-failing-input-found')."""
+        return "the implementation's answer differs from the answer the theorems prove to be the one the property demands"
+
+    def post(self, results):
+        """extra cross-case checks on [(case, impl, model)]; returns [(case, why)]"""
+        return []
 
 
 def register(cls):
@@ -36,8 +42,1042 @@ def register(cls):
     return cls
 
 
-def parse_ok(line):
-    return line.startswith("OK ")
+def P(s):
+    return "P " + hx(s)
+
+
+def PC(s, mdt="/dev/mdt0"):
+    return "PC %s %s" % (hx(s), hx(mdt))
+
+
+def tree_or_err(line):
+    """OK <opts> <tree> stays, every error message collapses to ERR"""
+    if line.startswith("ERR"):
+        return "ERR"
+    return line
+
+
+def parse_part(line):
+    return line.split(" || ")[0]
+
+
+def compile_part(line):
+    p = line.split(" || ", 1)
+    return p[1] if len(p) > 1 else ""
+
+
+def strip_clock(line):
+    return re.sub(r"clock \d+ ", "clock * ", line)
+
+
+def strip_epoch(line):
+    """remove the clock reading and every occurrence of that number from an observation"""
+    m = re.search(r"clock (\d+) ", line)
+    if not m:
+        return line
+    return line.replace(m.group(1), "*")
+
+
+def unesc(text):
+    return re.sub(r"\\x([0-9a-f]+);", lambda m: chr(int(m.group(1), 16)), text)
+
+
+def scheme_of(line):
+    """the emitted program text(s) of a COK observation"""
+    cp = compile_part(line) if " || " in line else line
+    if " COK " not in cp:
+        return None
+    parts = cp.split(" | ")
+    return [unesc(p) for p in parts[1:]]
+
+
+# ------------------------------------------------------------------------------------------- C01
+
+C01_WORDS = ["(", ")", "!", ",", "-a", "-and", "-o", "-or", "-true", "-false", "-print"]
+
+
+@register
+class C01(Prop):
+    id = "C01"
+    theorems = ["C01_tokens", "C01_unique", "C01_no_prefix", "C01_words"]
+    rule = ("all word sequences over the 11-word alphabet ( ) ! , -a -and -o -or -true -false -print up to the "
+            "stated length, exhaustively; random longer sequences (length 6..40); random well-formed expressions of "
+            "depth <= 8 over the whole vocabulary; compared: the tree, or the fact of rejection. Non-trivial: "
+            "sequences of at least 2 words; distinct = distinct inputs")
+
+    def cases(self, tier, rng):
+        maxlen = 5 if tier == "quick" else 6
+        out = []
+        for n in range(1, maxlen + 1):
+            for ws in itertools.product(C01_WORDS, repeat=n):
+                out.append((P(" ".join(ws)), "exhaustive-len-%d" % n))
+        nrand = 20000 if tier == "quick" else 300000
+        for _ in range(nrand):
+            n = rng.randint(6, 40)
+            ws = [rng.choice(C01_WORDS) for _ in range(n)]
+            out.append((P(" ".join(ws)), "random-words"))
+        for _ in range(nrand):
+            ws = gen.expr_words(rng, rng.randint(1, 8))
+            # sprinkle damage: sometimes drop or duplicate a word
+            r = rng.random()
+            if r < 0.15 and len(ws) > 1:
+                del ws[rng.randrange(len(ws))]
+            elif r < 0.25:
+                ws.insert(rng.randrange(len(ws) + 1), rng.choice(C01_WORDS[:8]))
+            out.append((P(" ".join(ws)), "random-wellformed" if r >= 0.25 else "random-damaged"))
+        return out
+
+    def project(self, case, line):
+        return tree_or_err(line)
+
+    def nontrivial(self, case, line):
+        return case.count(".20.") >= 1
+
+
+# ------------------------------------------------------------------------------------------- C02
+
+def supported_expr(rng, depth):
+    return gen.expr_words(rng, depth, unsupported=0.0, options=0.03)
+
+
+@register
+class C02(Prop):
+    id = "C02"
+    theorems = []
+    rule = ("random expressions over every supported test/action (boundary-rich arguments), compiled and rendered; "
+            "compared: the complete emitted program (whose meaning the theorems characterise) and the destination "
+            "table. Non-trivial: the expression compiles; distinct = distinct inputs")
+
+    def cases(self, tier, rng):
+        n = 20000 if tier == "quick" else 400000
+        out = []
+        for _ in range(n):
+            ws = supported_expr(rng, rng.randint(0, 5))
+            out.append((PC(gen.join_words(rng, ws)), "random-supported"))
+        return out
+
+    def nontrivial(self, case, line):
+        return " COK " in line
+
+
+# ------------------------------------------------------------------------------------------- C03
+
+def mutate(rng, s):
+    if not s:
+        return s
+    r = rng.random()
+    k = rng.randrange(len(s))
+    alphabet = "-()!,'\"\\%0789 \t\nabckMGT+=/~u"
+    if r < 0.35:
+        return s[:k] + s[k + 1:]
+    if r < 0.7:
+        return s[:k] + rng.choice(alphabet) + s[k + 1:]
+    return s[:k] + rng.choice(alphabet) + s[k:]
+
+
+ARG_KEYWORDS = (gen.TIME_KW + gen.U32_KW + gen.U64_KW + gen.STR_TESTS_OK + gen.STR_TESTS_UNSUP
+                + ["-perm", "-size", "-type", "-xattr-match", "-fls", "-fprint", "-fprint0", "-fprintf", "-printf",
+                   "-maxdepth", "-mindepth", "-threads"])
+SHORT_ALPHABET = list("0179+-/kxu=r,'\"\\%{f ")
+
+
+@register
+class C03(Prop):
+    id = "C03"
+    theorems = []
+    release = True
+    rule = ("grammar-aware inputs, every prefix and random single-character mutations of valid inputs, exhaustive "
+            "argument strings (length <= 2 quick / 3 thorough) over a 20-symbol alphabet after every argument-taking "
+            "keyword, numeric boundaries, nesting to depth 64, inputs up to 4 KiB; both build profiles; compared: the "
+            "outcome class (result / error value / panic) of parse and of compile+render. Non-trivial: input of at "
+            "least 2 characters; distinct = distinct inputs")
+    assumes = ["stack exhaustion, allocation failure and panics inside dependencies that the model does not contain "
+               "are covered only by the differential runs at the stated bounds (partial)"]
+
+    def cases(self, tier, rng):
+        out = []
+        nvalid = 400 if tier == "quick" else 4000
+        for _ in range(nvalid):
+            s = gen.join_words(rng, gen.expr_words(rng, rng.randint(0, 4), unsupported=0.05, options=0.05), fancy=rng.random() < 0.3)
+            out.append((PC(s), "valid"))
+            for k in range(0, len(s), max(1, len(s) // 12)):
+                out.append((PC(s[:k]), "prefix"))
+            for _ in range(8):
+                out.append((PC(mutate(rng, s)), "mutation"))
+        L = 2 if tier == "quick" else 3
+        for kw in ARG_KEYWORDS:
+            for n in range(0, L + 1):
+                for a in itertools.product(SHORT_ALPHABET, repeat=n):
+                    if tier == "quick" and n == 2 and rng.random() < 0.5:
+                        continue
+                    out.append((PC(kw + " " + "".join(a)), "short-arg"))
+        for kw in gen.TIME_KW + gen.U32_KW + gen.U64_KW + ["-size", "-threads", "-maxdepth", "-perm"]:
+            for b in gen.BOUNDARY_NUMS + [2**64 // 1024, 2**64 // 1024 + 1, 2**64 // 512, 2**64 // 2**40, 7777, 17777, 777777777777]:
+                for suf in ["", "k", "T", "c", "d", "s"]:
+                    out.append((PC("%s %d%s" % (kw, b, suf)), "numeric-boundary"))
+        for d in [1, 8, 32, 64]:
+            out.append((PC("( " * d + "-true" + " )" * d), "nesting"))
+            out.append((PC("! " * d + "-true"), "nesting"))
+            out.append((PC("( " * d + "-true" + " )" * (d - 1)), "nesting"))
+        for n in [500, 4000]:
+            out.append((PC("-name " + "a" * n), "long"))
+            out.append((PC(" -o ".join(["-true"] * (n // 8))), "long"))
+            out.append((PC("-printf '" + "%p\\n" * (n // 4) + "'"), "long"))
+        out += [(PC(s), "seed-corpus") for s in ["", " ", "nope", "-perm 17777", "-printf '\\1234567'", "-maxdepth 3",
+                                                 "-size 18014398509481984k", "-printf '%'", "-printf '\\", "'", "\"", "-name 'x"]]
+        return out
+
+    def project(self, case, line):
+        p = parse_part(line).split(" ")[0]
+        c = compile_part(line)
+        cls = "" if not c else ("CPANIC" if "CPANIC" in c else "COK" if " COK " in c else "CERR" if " CERR " in c else c.split(" ")[0])
+        return p + " " + cls
+
+    def nontrivial(self, case, line):
+        return len(case) > 8
+
+    def oracle(self, case, impl, model):
+        if "PANIC" in impl or "NO-OUTPUT" in impl:
+            return "the library panics (or dies) on this input instead of returning a value"
+        return None
+
+
+# ------------------------------------------------------------------------------------------- C04
+
+C04_ALPHABET = ['"', "\\", "~", "%", "(", ")", ";", "#", "\n", "\t", "\x01", "é", "a", " "]
+
+
+def quote_any(s):
+    if "'" not in s:
+        return "'" + s + "'"
+    if '"' not in s:
+        return '"' + s + '"'
+    return None
+
+
+@register
+class C04(Prop):
+    id = "C04"
+    theorems = []
+    rule = ("every string-carrying primary (-name -iname -path -ipath -pool -xattr -xattr-match -fprint -fprint0 "
+            "-fprintf file and format, -printf literal text, %Ak selector) and the device path x all strings up to the "
+            "stated length over the 14-symbol alphabet \" \\ ~ % ( ) ; # LF TAB 0x01 e-acute a space, plus random longer "
+            "strings; compared: the emitted text byte for byte. Non-trivial: string of length >= 1 that compiles")
+
+    def strings(self, maxlen):
+        for n in range(0, maxlen + 1):
+            for t in itertools.product(C04_ALPHABET, repeat=n):
+                yield "".join(t)
+
+    def cases(self, tier, rng):
+        out = []
+        full = 2 if tier == "quick" else 3
+        for kw in ["-name", "-iname", "-path", "-ipath", "-pool", "-xattr", "-fprint", "-fprint0"]:
+            L = 3 if (kw == "-name" or tier != "quick") else full
+            for s in self.strings(L):
+                q = quote_any(s)
+                if q is not None:
+                    out.append((PC(kw + " " + q), kw))
+        for s in self.strings(full):
+            q = quote_any(s)
+            if q is None:
+                continue
+            out.append((PC("-xattr-match " + q + " v"), "-xattr-match"))
+            out.append((PC("-xattr-match k " + q), "-xattr-match"))
+            out.append((PC("-fprintf " + q + " '%p\\n'"), "-fprintf-file"))
+            out.append((PC("-print", s), "device-path"))
+        for s in self.strings(3):
+            if "%" in s:
+                continue
+            q = quote_any(s)
+            if q is not None:
+                out.append((PC("-printf " + q), "-printf-literal"))
+                out.append((PC("-fprintf f " + q), "-fprintf-literal"))
+        for c in C04_ALPHABET + list("kHY@"):
+            q = quote_any("%A" + c + "%T" + c)
+            if q:
+                out.append((PC("-printf " + q), "strftime-selector"))
+        for esc in ["\\042", "\\134", "\\176", "\\045", "\\101", "\\000", "\\777", "\\\\", "\\", "\\n\\t\\a\\b\\f\\r\\v\\0"]:
+            out.append((PC("-printf 'x" + esc + "y'"), "octal-escape"))
+            out.append((PC("-printf '" + esc + "'"), "octal-escape"))
+        n = 3000 if tier == "quick" else 60000
+        for _ in range(n):
+            s = "".join(rng.choice(C04_ALPHABET + list("bc*?[")) for _ in range(rng.randint(4, 12)))
+            q = quote_any(s)
+            if q is None:
+                continue
+            kw = rng.choice(["-name", "-ipath", "-pool", "-xattr", "-fprint", "-printf", "-xattr-match k"])
+            if kw == "-printf" and "%" in s:
+                s = s.replace("%", "%%"); q = quote_any(s)
+            out.append((PC(kw + " " + q, rng.choice(["/dev/x", s])), "random-long"))
+        return out
+
+    def nontrivial(self, case, line):
+        return " COK " in line
+
+    def oracle(self, case, impl, model):
+        texts = scheme_of(impl)
+        if texts is None:
+            return "the implementation does not produce a program where the model does"
+        for t in texts:
+            forms = SX.read_all(t)
+            if forms is None or len(forms) != 2:
+                return "the emitted text does not read back as exactly two top-level forms"
+        mt = scheme_of(model)
+        if mt:
+            fi, fm = SX.read_all(texts[0]), SX.read_all(mt[0])
+            if fi != fm:
+                return "the emitted program reads back as a different structure than the one the property demands"
+        return None   # only layout differs
+
+
+# ------------------------------------------------------------------------------------------- C05
+
+def members(rng):
+    """(keyword, argument words) pairs: generated members of every argument language"""
+    out = []
+    for kw in gen.TIME_KW:
+        for sg in ["", "+", "-"]:
+            for u in gen.TIME_UNITS:
+                out.append([kw, sg + gen.num(rng, 10) + u])
+    for kw in gen.U32_KW + gen.U64_KW:
+        for sg in ["", "+", "-"]:
+            out.append([kw, sg + gen.small(rng)])
+            out.append([kw, sg + "00" + gen.small(rng)])
+    for sg in ["", "+", "-"]:
+        for u in gen.SIZE_UNITS:
+            out.append(["-size", sg + gen.small(rng) + u])
+    for kw in gen.STR_TESTS_OK + gen.STR_TESTS_UNSUP + gen.STR_ACTIONS_OK + gen.STR_ACTIONS_UNSUP:
+        for _ in range(3):
+            q = gen.quote(rng, gen.word(rng, 0.2))
+            if q:
+                out.append([kw, q])
+    for kw in gen.BARE_TESTS_OK + gen.BARE_TESTS_UNSUP + gen.BARE_ACTIONS_OK + gen.BARE_ACTIONS_UNSUP + ["-depth"]:
+        out.append([kw])
+    for _ in range(20):
+        out.append(["-perm", gen.perm_arg(rng)])
+        out.append(["-type", ",".join(rng.choice(gen.TYPES) for _ in range(rng.randint(1, 4)))])
+        q1, q2 = gen.quote(rng, gen.word(rng, 0.2)), gen.quote(rng, gen.word(rng, 0.2))
+        if q1 and q2:
+            out.append(["-xattr-match", q1, q2])
+        f = gen.fmt_string(rng, True).replace("'", "")
+        out.append(["-printf", "'" + f + "'"])
+        out.append(["-fprintf", "out", "'" + f + "'"])
+    out.append(["-threads", gen.small(rng)])
+    out.append(["-maxdepth", gen.small(rng)])
+    out.append(["-mindepth", gen.small(rng)])
+    return out
+
+
+CORRUPT_SUFFIX = ["x", "-true", "k", ",", ",u+x", "q", "'", "7", "%", "(", "!", ".", "-", "+", "\\"]
+
+
+@register
+class C05(Prop):
+    id = "C05"
+    theorems = []
+    rule = ("every keyword x generated members of its argument language (all units, signs, leading zeros, octal and "
+            "symbolic modes, bare/quoted words, format strings) x systematically corrupted non-members that start "
+            "validly (trailing/embedded junk, missing argument, keyword extensions), alone and embedded after/before "
+            "other primaries; every ordered pair of prefix-related keywords; compared: the tree, or the fact of "
+            "rejection. Non-trivial: everything but a bare keyword alone")
+
+    def cases(self, tier, rng):
+        out = []
+        rounds = 3 if tier == "quick" else 40
+        for _ in range(rounds):
+            for m in members(rng):
+                s = " ".join(m)
+                out.append((P(s), "member"))
+                out.append((P("-true " + s + " -o ! " + s), "member-embedded"))
+                out.append((P("( " + s + " )"), "member-embedded"))
+                for suf in rng.sample(CORRUPT_SUFFIX, 4):
+                    out.append((P(s + suf), "corrupt-trailing"))
+                    out.append((P("-true " + s + suf + " -print"), "corrupt-embedded"))
+                    if len(m) > 1:
+                        out.append((P(m[0] + suf + " " + " ".join(m[1:])), "corrupt-keyword"))
+                        k = rng.randrange(len(m[1]) + 1)
+                        out.append((P(m[0] + " " + m[1][:k] + suf + m[1][k:] + (" " + " ".join(m[2:]) if len(m) > 2 else "")), "corrupt-inside"))
+                if len(m) > 1:
+                    out.append((P(" ".join(m[:-1])), "missing-argument"))
+                    out.append((P(" ".join(m[:-1]) + " )"), "missing-argument"))
+        kws = gen.ALL_KEYWORDS + ["-a", "-and", "-o", "-or"]
+        for a in kws:
+            for b in kws:
+                if a != b and (a.startswith(b) or b.startswith(a)):
+                    for arg in ["", " 5", " x", " 'x' 'y'"]:
+                        out.append((P(a + arg), "prefix-pair"))
+                        out.append((P("-true " + a + arg + " -true"), "prefix-pair"))
+        for a in kws:
+            for ext in ["x", "0", "f", "-", "s"]:
+                out.append((P(a + ext + " 5"), "keyword-extension"))
+        for w in ["foo", "-foo", "nope", "--", "-", "true", "-TRUE", "-Print", "5", "'-true'"]:
+            out.append((P(w), "non-keyword"))
+            out.append((P("-true " + w), "non-keyword"))
+        return out
+
+    def project(self, case, line):
+        return tree_or_err(line)
+
+    def nontrivial(self, case, line):
+        return ".20." in case
+
+
+# ------------------------------------------------------------------------------------------- C06
+
+def layout_variants(rng, ws, k):
+    """k spellings of the same abstract expression given as canonical words"""
+    vs = []
+    for _ in range(k):
+        out = []
+        for w in ws:
+            if w in ("-a", "-and"):
+                c = rng.choice(["-a", "-and", None])
+                if c: out.append(c)
+            elif w in ("-o", "-or"):
+                out.append(rng.choice(["-o", "-or"]))
+            elif w.startswith("'") and w.endswith("'") and len(w) >= 2:
+                v = w[1:-1]
+                out.append(gen.quote(rng, v) or w)
+            else:
+                out.append(w)
+        vs.append(gen.join_words(rng, out, fancy=True))
+    return vs
+
+
+def redundant_parens(rng, ws):
+    """wrap a random well-formed operand (a single primary) in parentheses, with or without blanks"""
+    # choose a primary start: a word starting with '-' that is a keyword, not an operator
+    idx = [i for i, w in enumerate(ws) if w in gen.BARE_TESTS_OK + gen.BARE_ACTIONS_OK]
+    if not idx:
+        return None
+    i = rng.choice(idx)
+    return ws[:i] + ["("] + [ws[i]] + [")"] + ws[i + 1:]
+
+
+@register
+class C06(Prop):
+    id = "C06"
+    theorems = []
+    rule = ("generated expressions x layout variants (kind and amount of blanks per gap incl. leading/trailing, "
+            "implicit/-a/-and, -o/-or, redundant parentheses with and without inner blanks, quoting style of string "
+            "arguments when the value permits it); compared: options and tree of every variant with the model's and "
+            "with each other; blank inputs against -true. Non-trivial: expression with at least one operator")
+
+    def cases(self, tier, rng):
+        n = 4000 if tier == "quick" else 100000
+        out = []
+        self.groups = []
+        for _ in range(n):
+            ws = gen.expr_words(rng, rng.randint(0, 4), unsupported=0.05, options=0.05, hostile=0.0)
+            vs = layout_variants(rng, ws, 6)
+            rp = redundant_parens(rng, ws)
+            if rp:
+                vs.append(" ".join(rp))
+                vs.append(" ".join(rp).replace("( ", "(").replace(" )", ")"))
+            self.groups.append([P(v) for v in vs])
+            for v in vs:
+                out.append((P(v), "variant"))
+        blanks = ["", " ", "\t", "\n", "\r", " \t\r\n ", "   ", "-true"]
+        self.groups.append([P(b) for b in blanks])
+        for b in blanks:
+            out.append((P(b), "blank"))
+        return out
+
+    def nontrivial(self, case, line):
+        return ".20." in case or ".9." in case
+
+    def post(self, results):
+        res = {c: i for c, i, m in results}
+        bad = []
+        for g in getattr(self, "groups", []):
+            got = [(c, res[c]) for c in g if c in res]
+            for c, i in got[1:]:
+                if i != got[0][1]:
+                    bad.append((c, "two spellings of one expression give different results: %s and %s" % (got[0][0], c)))
+                    break
+        return bad
+
+
+# ------------------------------------------------------------------------------------------- C07
+
+@register
+class C07(Prop):
+    id = "C07"
+    theorems = []
+    release = True
+    rule = ("every numeric primary x decimal strings around 0, 2^31, 2^32, 2^63, 2^64, 2^64/unit (+-1) for every "
+            "unit, leading zeros, signs, up to 40 digits, random values; both profiles; compared: the number in the "
+            "tree and every constant of the emitted program. Non-trivial: values >= 2^16")
+
+    def cases(self, tier, rng):
+        out = []
+        nums = set(gen.BOUNDARY_NUMS)
+        for b in [2**31, 2**32, 2**63, 2**64]:
+            nums |= {b - 2, b - 1, b, b + 1}
+        for m in [1, 2, 512, 2**10, 2**20, 2**30, 2**40, 60, 3600, 86400]:
+            nums |= {2**64 // m - 1, 2**64 // m, 2**64 // m + 1}
+        nums |= {10**39, 10**40 - 1, int("9" * 40)}
+        for _ in range(200 if tier == "quick" else 5000):
+            nums.add(rng.randint(0, 2**rng.randint(1, 70)))
+        for n in sorted(nums):
+            for z in ["", "0", "000"]:
+                ds = z + str(n)
+                for sg in ["", "+", "-"]:
+                    for kw in gen.U32_KW + gen.U64_KW:
+                        out.append((PC("%s %s%s" % (kw, sg, ds)), "count"))
+                    for u in gen.SIZE_UNITS:
+                        out.append((PC("-size %s%s%s" % (sg, ds, u)), "size"))
+                    for kw in ["-amin", "-mtime"]:
+                        for u in gen.TIME_UNITS:
+                            out.append((PC("%s %s%s%s" % (kw, sg, ds, u)), "time"))
+                out.append((PC("-threads %s -true" % ds), "threads"))
+                out.append((PC("-true -threads %s" % ds), "threads"))
+        return out
+
+    def nontrivial(self, case, line):
+        return len(case) > 40
+
+
+# ------------------------------------------------------------------------------------------- C08
+
+WHO = ["u", "g", "o", "a", "ug", "uo", "ua", "go", "ga", "oa", "ugo", "uga", "uoa", "goa", "ugoa"]
+PERMS = ["r", "w", "x", "rw", "rx", "wx", "rwx"]
+CLAUSES = [w + op + p for w in WHO for op in "+-=" for p in PERMS]
+
+
+@register
+class C08(Prop):
+    id = "C08"
+    theorems = []
+    rule = ("all 4096 octal values in 3- and 4-digit spelling, all 315 single clauses, two-clause lists (10 000 sampled "
+            "quick / all 99 225 thorough), sampled three- and four-clause lists, each under the three prefixes; "
+            "compared: kind and bits in the tree and mask/constant in the emitted comparison. Non-trivial: all")
+
+    def cases(self, tier, rng):
+        out = []
+        for v in range(4096):
+            for pre in ["", "-", "/"]:
+                if v < 512:
+                    out.append((PC("-perm %s%03o" % (pre, v)), "octal3"))
+                out.append((PC("-perm %s%04o" % (pre, v)), "octal4"))
+        for c in CLAUSES:
+            for pre in ["", "-", "/"]:
+                out.append((PC("-perm " + pre + c), "clause1"))
+        pairs = [(a, b) for a in CLAUSES for b in CLAUSES]
+        if tier == "quick":
+            pairs = rng.sample(pairs, 10000)
+        for a, b in pairs:
+            out.append((P("-perm %s%s,%s" % (rng.choice(["", "-", "/"]), a, b)), "clause2"))
+        for _ in range(5000 if tier == "quick" else 100000):
+            k = rng.choice([3, 4])
+            out.append((P("-perm %s%s" % (rng.choice(["", "-", "/"]), ",".join(rng.choice(CLAUSES) for _ in range(k)))), "clause%d" % k))
+        for bad in ["8", "77", "17777", "20000", "777777777777", "0777x", "777,u+x", "u+x,777", "u+rq", "u+", "+r", "u", "u+r,", ",u+r", "a=rwxs", ""]:
+            for pre in ["", "-", "/"]:
+                out.append((P("-perm " + pre + bad), "malformed"))
+        return out
+
+    def project(self, case, line):
+        return tree_or_err(parse_part(line)) + " || " + compile_part(line)
+
+    def known_class(self, case):
+        return "-" in unesc_case(case).split(" ", 1)[1][1:] if False else None
+
+
+def unesc_case(case):
+    f = case.split(" ")[1]
+    return "" if f == "-" else "".join(chr(int(x, 16)) for x in f.split("."))
+
+
+# ------------------------------------------------------------------------------------------- C09
+
+C09_LEAVES = ["T True", "T False", "T Name S78", "A Print", "A Quit", "A FilePrint S66"]
+
+
+def small_trees(n_ops):
+    """all trees with exactly n_ops operator nodes over the C09 leaves and And/Or/List/Not"""
+    if n_ops == 0:
+        for l in C09_LEAVES:
+            yield l
+        return
+    for t in small_trees(n_ops - 1):
+        yield "Not " + t
+    for k in range(0, n_ops):
+        for a in small_trees(k):
+            for b in small_trees(n_ops - 1 - k):
+                for op in ("And", "Or", "List"):
+                    yield "%s %s %s" % (op, a, b)
+
+
+@register
+class C09(Prop):
+    id = "C09"
+    theorems = []
+    rule = ("all expression trees with up to 2 (quick) / 3 (thorough) operator nodes over {true, false, a name test, "
+            "print, quit, a file print} and And/Or/List/Not, exhaustively, plus random larger trees and parsed "
+            "expressions; compared: the emitted program and destination table. Non-trivial: at least one operator")
+
+    def cases(self, tier, rng):
+        out = []
+        maxops = 2 if tier == "quick" else 3
+        for k in range(0, maxops + 1):
+            for t in small_trees(k):
+                out.append(("TC 0 - 2f " + t, "exhaustive-ops-%d" % k))
+        for _ in range(3000 if tier == "quick" else 100000):
+            t = gen.tree(rng, rng.randint(1, 6), api_only=False, unsupported=0.0, actions=rng.choice([0.0, 0.1, 0.4]))
+            out.append(("TC 0 - 2f " + t, "random-tree"))
+            ws = gen.expr_words(rng, 3, hostile=0.0)
+            out.append((PC(" ".join(ws)), "random-parsed"))
+        return out
+
+    def nontrivial(self, case, line):
+        return any(k in case for k in ("And ", "Or ", "List ", "Not ")) or case.startswith("PC")
+
+    def oracle(self, case, impl, model):
+        return oracle_program(case, impl, model)
+
+
+def oracle_program(case, impl, model):
+    ti, tm = scheme_of(impl), scheme_of(model)
+    if (ti is None) != (tm is None):
+        return "the implementation compiles where the property demands an error, or the reverse"
+    if ti is None:
+        return "different error"
+    fi, fm = SX.read_all(ti[0]), SX.read_all(tm[0])
+    if fi is None:
+        return "the emitted program does not read back"
+    if fi != fm:
+        return "the emitted program differs in structure from the one the property demands"
+    if compile_part(impl).split(" | ")[0] != compile_part(model).split(" | ")[0]:
+        return "the destination table differs"
+    return None
+
+
+# ------------------------------------------------------------------------------------------- C10
+
+OUT_ACTIONS = ["-print", "-print0", "-print-file-fid", "-fprint f1", "-fprint f2", "-fprint0 f1", "-fprint0 f3",
+               "-printf '%p\\n'", "-printf '%p'", "-printf 'x\\n%s'", "-printf ''", "-fprintf f1 '%p\\n'",
+               "-fprintf f2 '%p'", "-fprintf f1 ''", "-quit"]
+
+
+@register
+class C10(Prop):
+    id = "C10"
+    theorems = []
+    rule = ("all multisets of up to 3 (quick) / 4 (thorough) actions from every output-producing action with file "
+            "names from a pool of 3, in random operator trees; random mixes of up to 6; expressions with 1..300 distinct "
+            "destinations and with more than 254 generated identifiers before a printer; compared: destination table, "
+            "mode, and the emitted program. Non-trivial: at least 2 actions")
+
+    def cases(self, tier, rng):
+        out = []
+        k = 3 if tier == "quick" else 4
+        for n in range(1, k + 1):
+            for combo in itertools.combinations_with_replacement(OUT_ACTIONS, n):
+                ws = list(combo)
+                rng.shuffle(ws)
+                s = ws[0]
+                for w in ws[1:]:
+                    s += rng.choice([" ", " -o ", " -a ", " , ", " -o ! "]) + w
+                if rng.random() < 0.3:
+                    s = "-name x* ( " + s + " )"
+                out.append((PC(s), "multiset-%d" % n))
+        for _ in range(2000 if tier == "quick" else 50000):
+            ws = [rng.choice(OUT_ACTIONS) for _ in range(rng.randint(2, 6))]
+            s = ws[0]
+            for w in ws[1:]:
+                s += rng.choice([" ", " -o ", " -a ", " , "]) + w
+            out.append((PC(s), "random-mix"))
+        for nd in [1, 2, 17, 127, 128, 254, 255, 256, 300]:
+            out.append((PC(" ".join("-fprint out.%d" % i for i in range(nd))), "many-destinations"))
+            out.append((PC(" ".join("-fprint0 o%d -fprint o%d" % (i, i) for i in range(nd))), "many-destinations"))
+        for nm in [125, 126, 127, 130]:
+            names = " -o ".join("-name n%d" % i for i in range(nm))
+            out.append((PC("-fprint early -fprint0 early ( %s ) -fprint late -fprint0 late -print0" % names), "late-printer"))
+        return out
+
+    def nontrivial(self, case, line):
+        return line.count("%lf3:print:") >= 2 or " none " in line
+
+    def oracle(self, case, impl, model):
+        return oracle_program(case, impl, model)
+
+
+# ------------------------------------------------------------------------------------------- C11
+
+@register
+class C11(Prop):
+    id = "C11"
+    theorems = []
+    rule = ("expressions with 0..300 matchers and printers in random first-occurrence order with deliberate repeats, "
+            "case-only differences (-name/-iname, -path/-ipath on the same text) and pattern/literal pairs, in plain "
+            "and in framed mode; compared: the emitted program (bindings, references). Non-trivial: at least 2 "
+            "generated resources")
+
+    def cases(self, tier, rng):
+        out = []
+        pats = ["foo", "Foo", "f*", "f?o", "[f]oo", "a\\b", "core", "README", "x y", "zz"]
+        kws = ["-name", "-iname", "-path", "-ipath"]
+        acts = ["-print", "-print0", "-printf '%p\\n'", "-fprint o1", "-fprint0 o1", "-fprint o2", "-print-file-fid", "-printf '%p'"]
+        for _ in range(4000 if tier == "quick" else 80000):
+            n = rng.choice([0, 1, 2, 3, 5, 8, 12, 20])
+            items = []
+            for _ in range(n):
+                if rng.random() < 0.7:
+                    items.append("%s '%s'" % (rng.choice(kws), rng.choice(pats)))
+                else:
+                    items.append(rng.choice(acts if rng.random() < 0.5 else acts[:3] + acts[6:7]))
+            if not items:
+                items = ["-true"]
+            s = items[0]
+            for w in items[1:]:
+                s += rng.choice([" ", " -o ", " -a "]) + w
+            out.append((PC(s), "mixed-%d" % n))
+        for n in [50, 127, 128, 200, 300]:
+            s = " -o ".join("%s p%d" % (rng.choice(kws), rng.randint(0, n)) for _ in range(n))
+            out.append((PC(s), "many"))
+            out.append((PC(s + " -print0 -fprint z"), "many"))
+        for a in pats:
+            for k1 in kws:
+                for k2 in kws:
+                    out.append((PC("%s '%s' -o %s '%s'" % (k1, a, k2, a)), "pairs"))
+                    out.append((PC("%s '%s' -o %s '%s' -print0" % (k1, a, k2, a)), "pairs"))
+        return out
+
+    def nontrivial(self, case, line):
+        return line.count("(%lf3:") >= 2
+
+    def oracle(self, case, impl, model):
+        ti = scheme_of(impl)
+        if ti:
+            forms = SX.read_all(ti[0])
+            if forms is None:
+                return "the emitted program does not read back"
+            why = SX.scope_check(forms)
+            if why:
+                return why
+        return oracle_program(case, impl, model)
+
+
+# ------------------------------------------------------------------------------------------- C12
+
+@register
+class C12(Prop):
+    id = "C12"
+    theorems = []
+    release = True
+    rule = ("random trees over the full vocabulary with 0..3 unsupported constructs at random positions (dead "
+            "branches, inside format strings), every unsupported construct alone, parsed and constructor-built; both "
+            "profiles; compared: success, or the error kind and the construct it names. Non-trivial: tree with an operator")
+
+    def cases(self, tier, rng):
+        out = []
+        singles = (["T %s S78" % t for t in ["AccessNewer", "ChangeNewer", "FsType", "Group", "InsensitiveLinkName",
+                                              "InsensitiveRegex", "LinkName", "ModifyNewer", "Regex", "Samefile", "User"]]
+                   + ["T NoGroup", "T NoUser", "A Prune", "A List", "A FileList S66", "P XDev"]
+                   + ["A PrintFormatted 1 F %s" % f for f in ["Depth", "DeviceNumber", "FsType", "SymbolicTarget",
+                                                              "PermissionsSymbolic", "TypeSymlink", "SecurityContext"]]
+                   + ["A PrintFormatted 1 X Clear", "A FilePrintFormatted S66 2 L S61 X Clear"])
+        for s in singles:
+            out.append(("TC 0 - 2f " + s, "single"))
+            out.append(("TC 0 - 2f Or T True " + s, "single-dead-branch"))
+            out.append(("TC 0 - 2f And T False Not " + s, "single-dead-branch"))
+        for _ in range(4000 if tier == "quick" else 100000):
+            out.append(("TC 0 - 2f " + gen.tree(rng, rng.randint(1, 5), api_only=False, unsupported=rng.choice([0.0, 0.1, 0.3])), "random-tree"))
+            ws = gen.expr_words(rng, 3, unsupported=rng.choice([0.0, 0.15, 0.4]), hostile=0.0)
+            out.append((PC(" ".join(ws)), "random-parsed"))
+        return out
+
+    def project(self, case, line):
+        c = compile_part(line) if " || " in line else line
+        c = strip_clock(c)
+        if " COK " in c:
+            return parse_part(line).split(" ")[0] + " COK"
+        return parse_part(line).split(" ")[0] + " " + c
+
+    def nontrivial(self, case, line):
+        return any(k in case for k in ("And ", "Or ", "List ", "Not ")) or case.startswith("PC")
+
+
+# ------------------------------------------------------------------------------------------- C13
+
+@register
+class C13(Prop):
+    id = "C13"
+    theorems = []
+    rule = ("random expressions with 0..4 options (-depth, -threads N, -maxdepth N, -mindepth N) inserted at random "
+            "word boundaries (front, middle, inside parentheses, after '!'), repeated with different values; compared: "
+            "returned options, tree, and the thread argument of the emitted scan call. Non-trivial: at least one option")
+
+    def cases(self, tier, rng):
+        out = []
+        for _ in range(6000 if tier == "quick" else 150000):
+            ws = gen.expr_words(rng, rng.randint(0, 3), hostile=0.0)
+            # word boundaries that are primary starts
+            starts = [i for i, w in enumerate(ws) if w.startswith("-") and w not in ("-a", "-and", "-o", "-or")
+                      and (i == 0 or not ws[i - 1].startswith("-") or ws[i - 1] in gen.BARE_TESTS_OK + gen.BARE_ACTIONS_OK + ["-a", "-and", "-o", "-or"])]
+            k = rng.randint(0, 4)
+            opts = []
+            for _ in range(k):
+                o = rng.choice(["-depth", "-threads %d" % rng.choice([0, 1, 4, 64, 2**32 - 1]), "-threads %d" % rng.randint(0, 99)]
+                               + (["-maxdepth 3", "-mindepth 1"] if rng.random() < 0.15 else []))
+                opts.append(o)
+            lead = rng.randint(0, k)
+            s_words = list(ws)
+            for o in opts[lead:]:
+                pos = rng.choice(starts + [len(s_words)]) if starts else len(s_words)
+                s_words = s_words[:pos] + [o] + s_words[pos:]
+                starts = [i + (1 if i >= pos else 0) for i in starts]
+            s = " ".join(opts[:lead] + s_words)
+            out.append((PC(gen.join_words(rng, s.split(" "), fancy=rng.random() < 0.2)), "options-%d" % k))
+        for s in ["-depth", "-threads 3", "-depth -threads 2 -threads 7", "-true -depth", "( -depth )", "! -threads 9",
+                  "-threads 1 -true -threads 2 -o -threads 3", "-maxdepth 3", "-true -mindepth 1", "-depth -depth",
+                  "-threads 4294967295", "-threads 4294967296"]:
+            out.append((PC(s), "directed"))
+        return out
+
+    def nontrivial(self, case, line):
+        return "2d.64.65.70.74.68" in case or "2d.74.68.72.65.61.64.73" in case
+
+
+# ------------------------------------------------------------------------------------------- C14
+
+C14_ALPHABET = ["%", "\\", "{", "}", ":", "A", "p", "q", "0", "1", "7", "8", "n", "f", "@", "x"]
+
+
+@register
+class C14(Prop):
+    id = "C14"
+    theorems = []
+    rule = ("all strings up to length 4 (quick) / 5 (thorough) over the 16-symbol alphabet % \\ { } : A p q 0 1 7 8 n f @ x, "
+            "every documented directive and escape individually and in context, random strings up to length 60; "
+            "compared: the element list, or the fact of rejection. Non-trivial: strings of length >= 2")
+
+    def cases(self, tier, rng):
+        out = []
+        L = 4 if tier == "quick" else 5
+        for n in range(0, L + 1):
+            for t in itertools.product(C14_ALPHABET, repeat=n):
+                out.append((P("-printf '" + "".join(t) + "'"), "exhaustive-len-%d" % n))
+        singles = ["%" + f for f in gen.FMT_FIELDS_OK + gen.FMT_FIELDS_UNSUP] + gen.FMT_ESC + ["\\c"] \
+            + ["\\%03o" % v for v in range(0, 512, 7)] + ["\\%o" % v for v in [1, 7, 12, 77]] \
+            + ["%{xattr:user}", "%{xattr:}", "%{xattr:a1}", "%{xattr:a", "%{fid", "%{}", "%A", "%T", "%C", "%", "%q", "%9"]
+        for s in singles:
+            for ctx in ["%s", "a%sb", "%s%s", "x%s", "%sy", "%%%s", "\\\\%s"]:
+                out.append((P("-printf '" + ctx.replace("%s", s) + "'"), "single"))
+        for _ in range(5000 if tier == "quick" else 200000):
+            n = rng.randint(1, 60)
+            s = "".join(rng.choice(C14_ALPHABET + list("abcdDFghHiklmMPsStuUyYZ {}-") + ["{fid}", "{projid}", "{xattr:"]) for _ in range(n))
+            out.append((P("-printf \"" + s.replace('"', "") + "\""), "random"))
+        return out
+
+    def project(self, case, line):
+        return tree_or_err(line)
+
+    def nontrivial(self, case, line):
+        return len(case) > 40
+
+
+# ------------------------------------------------------------------------------------------- C15
+
+@register
+class C15(Prop):
+    id = "C15"
+    theorems = []
+    single_process = False
+    rule = ("random expressions biased to many matchers/printers/files, each parsed+compiled 5 times in one process "
+            "with unrelated compilations in between, the whole batch in several fresh processes (fresh hash seeds), and "
+            "a same-process sequence compile / sleep past a second boundary / compile; compared: every result with the "
+            "model's single answer for the clock reading measured around the call (which bounds the embedded second). "
+            "Non-trivial: at least 2 generated resources or a time test")
+
+    def cases(self, tier, rng):
+        out = []
+        pats = ["a", "b*", "c?", "D", "e.txt", "f[0-9]"]
+        for _ in range(1500 if tier == "quick" else 30000):
+            items = []
+            for _ in range(rng.randint(2, 12)):
+                r = rng.random()
+                if r < 0.4:
+                    items.append("%s %s" % (rng.choice(["-name", "-iname", "-path", "-ipath"]), rng.choice(pats)))
+                elif r < 0.8:
+                    items.append(rng.choice(["-print", "-print0", "-fprint o1", "-fprint o2", "-fprint0 o1", "-fprintf o3 '%p'", "-printf '%s\\n'", "-print-file-fid"]))
+                else:
+                    items.append("%s %s%d" % (rng.choice(gen.TIME_KW), gen.sign(rng), rng.randint(0, 50)))
+            s = items[0]
+            for w in items[1:]:
+                s += rng.choice([" ", " -o ", " -a "]) + w
+            out.append((PC(s, "/dev/x"), "base"))
+        # three repetitions that land in the same process (batch length a multiple of the shard
+        # count), two that land in other processes (shifted by one), all with unrelated compilations
+        # in between
+        while len(out) % 16:
+            out.append((PC("-true"), "pad"))
+        base = list(out)
+        out = base + [(c, "same-process-repeat") for c, _ in base] * 2
+        out.append((PC("-false"), "shift"))
+        out += [(c, "other-process-repeat") for c, _ in base] * 2
+        return out
+
+    def nontrivial(self, case, line):
+        return line.count("(%lf3:") >= 2 or "quotient" in line
+
+    def oracle(self, case, impl, model):
+        return "the program or the embedded second differs from the deterministic model's answer for the clock measured around the call"
+
+    def post(self, results):
+        seen, bad = {}, []
+        for c, i, m in results:
+            k = strip_epoch(i)
+            if c in seen and seen[c] != k:
+                bad.append((c, "two compilations of the same input give different programs"))
+            seen.setdefault(c, k)
+        return bad
+
+
+# ------------------------------------------------------------------------------------------- C16
+
+@register
+class C16(Prop):
+    id = "C16"
+    theorems = []
+    rule = ("programs with 1..3 printers (every printer-creating action, stdout and files, all terminators) in random "
+            "operator trees; compared: the emitted program, whose printer bindings and frame procedure are the lock/"
+            "write/unlock step sequences the interleaving theorem quantifies over; in addition the locking discipline "
+            "is re-checked on the implementation's own text. Non-trivial: at least one printer")
+    assumes = ["Guile mutexes (ice-9 threads), atomicity of one display call on a port, and make-printer = lock; write "
+               "line; write terminator; unlock are assumed (no Guile or LiPE in the sandbox)"]
+
+    def cases(self, tier, rng):
+        out = []
+        acts = OUT_ACTIONS[:-1]
+        for n in (1, 2, 3):
+            for combo in itertools.combinations_with_replacement(acts, n):
+                ws = list(combo)
+                s = ws[0]
+                for w in ws[1:]:
+                    s += rng.choice([" ", " -o ", " , "]) + w
+                out.append((PC(s), "printers<=%d" % n))
+                out.append((PC("-name q* " + s), "printers<=%d" % n))
+        for _ in range(1000 if tier == "quick" else 30000):
+            ws = gen.expr_words(rng, 3, hostile=0.0)
+            out.append((PC(" ".join(ws)), "random"))
+        out.append((PC("-true"), "default-print"))
+        return out
+
+    def nontrivial(self, case, line):
+        return "%lf3:print:" in line
+
+    def oracle(self, case, impl, model):
+        ti = scheme_of(impl)
+        if ti:
+            forms = SX.read_all(ti[0])
+            if forms is None:
+                return "the emitted program does not read back"
+            why = SX.discipline_check(forms)
+            if why:
+                return why
+        return oracle_program(case, impl, model)
+
+    def post(self, results):
+        bad = []
+        for c, i, m in results:
+            ti = scheme_of(i)
+            if ti:
+                forms = SX.read_all(ti[0])
+                why = SX.discipline_check(forms) if forms else "the emitted program does not read back"
+                if why:
+                    bad.append((c, why))
+        return bad
+
+
+# ------------------------------------------------------------------------------------------- C17
+
+@register
+class C17(Prop):
+    id = "C17"
+    theorems = []
+    release = True
+    rule = ("the corpora of C03 and C05 (valid, invalid and boundary inputs) through a debug and a release build of the "
+            "same harness; compared record by record with the model (hence with each other), clock normalised by "
+            "construction. Non-trivial: inputs of at least 2 words")
+
+    def cases(self, tier, rng):
+        out = []
+        c3 = PROPS["C03"].cases(tier, rng)
+        c5 = PROPS["C05"].cases(tier, rng)
+        if tier == "quick":
+            c3 = rng.sample(c3, min(len(c3), 20000))
+            c5 = rng.sample(c5, min(len(c5), 15000))
+        out += [(c, "C03-corpus") for c, _ in c3]
+        out += [("PC " + c[2:] + " " + hx("/d"), "C05-corpus") for c, _ in c5]
+        for u in ["Byte", "Word", "Block", "KiloByte", "MegaByte", "GigaByte", "TeraByte"]:
+            out.append(("TC 0 - 2f T Size Gt %s 18446744073709551615" % u, "size-overflow"))
+        return out
+
+    def nontrivial(self, case, line):
+        return ".20." in case
+
+    def post(self, results):
+        # debug and release answers of one case must be identical (clock aside)
+        seen, bad = {}, []
+        for c, i, m in results:
+            k = strip_epoch(i)
+            if c in seen and seen[c] != k:
+                bad.append((c, "debug and release builds answer differently: %s / %s" % (seen[c][:200], k[:200])))
+            seen.setdefault(c, k)
+        return bad
+
+
+# ------------------------------------------------------------------------------------------- C18
+
+INVALID_ARGS = {
+    "num": ["x", "-x", "+x", "abc", "k5", "'5'", "=5", "99999999999999999999999"],
+    "str": [")"],
+    "perm": ["8", "q+r", "+r", "=", "rwx", "7", "u", "88"],
+    "type": ["x", "q,f", "ff", "F", "1", ",f"],
+    "size": ["x", "k", "+k", "-M", "five"],
+    "fmt": [],
+}
+KW_CLASS = [(k, "num") for k in gen.TIME_KW + gen.U32_KW + gen.U64_KW + ["-threads", "-maxdepth", "-mindepth"]] + \
+           [("-size", "size"), ("-perm", "perm"), ("-type", "type")] + \
+           [(k, "str") for k in gen.STR_TESTS_OK + gen.STR_TESTS_UNSUP + gen.STR_ACTIONS_OK + gen.STR_ACTIONS_UNSUP + ["-printf", "-fprintf", "-xattr-match"]]
+
+
+@register
+class C18(Prop):
+    id = "C18"
+    theorems = []
+    rule = ("every argument-taking keyword x invalid-from-the-start argument words and end of input, after 0..3 valid "
+            "primaries and before 0..2 more; unknown words at random positions; compared: the complete message text. "
+            "Non-trivial: the primary is embedded (not alone)")
+
+    def cases(self, tier, rng):
+        out = []
+        reps = 2 if tier == "quick" else 30
+        valid = ["-true", "-name x", "-size +5k", "-print", "( -false )", "! -empty", "-uid 5 -o", "-type f ,"]
+        for _ in range(reps):
+            for kw, cls in KW_CLASS:
+                for a in INVALID_ARGS[cls] + [None]:
+                    pre = [rng.choice(valid) for _ in range(rng.randint(0, 3))]
+                    post = [rng.choice(valid[:6]) for _ in range(rng.randint(0, 2))]
+                    mid = kw if a is None else kw + " " + a
+                    if a is None:
+                        post = []
+                    out.append((P(" ".join(pre + [mid] + post)), "invalid-arg" if a is not None else "missing-arg"))
+            for w in ["foo", "-foo", "nope", "-anewerx", "-amin5", "-printx", "x-true", "-true-false", "--true", "5", "+", "=", "'q'", "-Name"]:
+                pre = [rng.choice(valid) for _ in range(rng.randint(0, 3))]
+                post = [rng.choice(valid[:6]) for _ in range(rng.randint(0, 2))]
+                out.append((P(" ".join(pre + [w] + post)), "unknown-word"))
+        return out
+
+    def nontrivial(self, case, line):
+        return case.count(".20.") >= 2
+
+    def oracle(self, case, impl, model):
+        if not impl.startswith("ERR"):
+            return "the input is accepted although the property demands an error"
+        return "the error text differs from the one the theorems prove to name the keyword and quote the word"
 
 
 # ------------------------------------------------------------------------------------------- C19
@@ -48,9 +1088,9 @@ class C19(Prop):
     theorems = ["C19_action", "C19_frames", "C19_units", "C19_byte_size"]
     release = True
     rule = ("random trees built through the public constructors (depth <= 12, incl. Prec/Global/Positional/"
-            "nested List nodes and empty formats), every Size/TimeSpec unit with boundary counts; a case is "
-            "non-trivial when the tree has at least one operator node or the helper is a unit helper; "
-            "distinct = distinct case lines")
+            "nested List nodes and empty formats), directed formatted prints (newline escape first/middle/last/absent), "
+            "every Size/TimeSpec unit with boundary counts; a case is non-trivial when the tree has at least one "
+            "operator node or the helper is a unit helper; distinct = distinct case lines")
 
     def cases(self, tier, rng):
         n = 3000 if tier == "quick" else 60000
@@ -58,6 +1098,16 @@ class C19(Prop):
         for i in range(n):
             d = rng.choice([1, 2, 3, 4, 6, 8, 12])
             out.append(("T " + gen.tree(rng, d, True, unsupported=0.1, actions=0.35), "tree-depth<=%d" % d))
+        els = ["X Newline", "L S61", "F Name", "X TabHorizontal"]
+        for k in range(0, 4):
+            for combo in itertools.product(els, repeat=k):
+                f = "%d%s" % (k, "".join(" " + e for e in combo))
+                for wrap in ["%s", "Not %s", "And T True %s", "Or %s T False", "List T True Prec %s", "Prec Not %s"]:
+                    out.append(("T " + wrap % ("A PrintFormatted " + f), "directed-printf"))
+        for a in ["Print", "PrintNull", "PrintFid", "Quit", "Prune", "List", "DefaultPrint", "FileList S66", "FilePrint S66",
+                  "FilePrintNull S66", "FilePrintFormatted S66 1 X Newline", "FilePrintFormatted S66 0"]:
+            for wrap in ["%s", "Not %s", "Prec %s", "Or T True %s", "List %s T True", "And T False Not Prec %s"]:
+                out.append(("T " + wrap % ("A " + a), "directed-action"))
         units = ["Byte", "Word", "Block", "KiloByte", "MegaByte", "GigaByte", "TeraByte"]
         mult = [1, 2, 512, 2**10, 2**20, 2**30, 2**40]
         for u, m in zip(units, mult):
@@ -78,3 +1128,47 @@ class C19(Prop):
 
     def nontrivial(self, case, line):
         return not case.startswith("T ") or any(k in case for k in ("And ", "Or ", "List ", "Not ", "Prec "))
+
+
+# ------------------------------------------------------------------------------------------- C20
+
+HOSTILE_PATHS = ["/dev/mdt0", "/", "", "a b", "x\"y", "back\\slash", "q\\", "\"", "é☃", "~a~%", "(;#|", "new\nline", "t\tab", "z" * 10000,
+                 "\") (system \"id\") (\""]
+
+
+@register
+class C20(Prop):
+    id = "C20"
+    theorems = []
+    rule = ("random compiled expressions x histories of 2..5 render calls with device paths from benign and hostile "
+            "strings (quotes, backslashes, blanks, non-ASCII, 10 kB), each followed by a destination-table query; "
+            "compared: every returned text and the table. Non-trivial: history with at least two different paths")
+
+    def cases(self, tier, rng):
+        out = []
+        for _ in range(2500 if tier == "quick" else 60000):
+            ws = gen.expr_words(rng, rng.randint(0, 3), hostile=0.1)
+            k = rng.randint(2, 5)
+            paths = [rng.choice(HOSTILE_PATHS) for _ in range(k)]
+            if rng.random() < 0.3:
+                paths[1] = paths[0]
+            out.append(("R %s %d %s" % (hx(" ".join(ws)), k, " ".join(hx(p) for p in paths)), "history-%d" % k))
+        return out
+
+    def nontrivial(self, case, line):
+        f = case.split(" ")
+        return len(set(f[3:])) >= 2 and " COK " in line
+
+    def oracle(self, case, impl, model):
+        if "IOMAP-CHANGED" in impl:
+            return "rendering changed the destination table"
+        ti, tm = scheme_of(impl), scheme_of(model)
+        if ti is None or tm is None or len(ti) != len(tm):
+            return "different outcome"
+        for a, b in zip(ti, tm):
+            fa, fb = SX.read_all(a), SX.read_all(b)
+            if fa is None:
+                return "a rendering does not read back"
+            if fa != fb:
+                return "a rendering differs from the demanded program in more than the device string"
+        return None
